@@ -1,4 +1,5 @@
 import RsMatterVerif.Lemmas.BtpFair
+import RsMatterVerif.Lemmas.BtpTimed
 import RsMatterVerif.Lemmas.BtpRing
 /-!
 # C18 — BTP delivers each message intact, once and in order, or fails cleanly
@@ -92,8 +93,9 @@ theorem delivered_is_reassembly (i r : Bool) (g : Option Nat) (ops : List EOp) (
 
 /-! ## Hostile peer: protocol violations are refused -/
 
-/-- **Hostile peer, clause "refused with an error"**: a data segment that violates the protocol in
-one of the ways named by the property — wrong sequence number, window overrun, acknowledgement of
+/-- **Hostile peer, clause "refused with an error"** (⇒ direction, kept under its old name; the
+full statement is `segment_refused_iff` below): a data segment that violates the protocol in one of
+the ways named by the property — wrong sequence number, window overrun, acknowledgement of
 something that is not awaiting one, inconsistent length or flags (`Spec.mustReject`, evaluated on
 the protocol-level view `viewOf s` of the state) — is refused with `InvalidData`; the state is
 unchanged (`Except`), so by `delivered_is_reassembly` it can never reach the application. -/
@@ -102,13 +104,48 @@ theorem hostile_segment_refused (s : Session) (hs : SInv s) (h : Hdr) (hh : h.Wf
     s.processRxData h p now = .error .invalidData :=
   mustReject_refused s hs h hh hhs p now hm
 
-/-- Non-vacuity: on an established session (window 5, nothing sent yet) a stand-alone
-acknowledgement of the never-sent sequence number 77 is a violation, and so is a data segment with
-sequence number 5 when 0 is expected. -/
+/-- **`segment_refused_iff`** (one step, every state satisfying the invariant): a decoded data
+segment (`h.hs = false`) is refused with `InvalidData` **if and only if** it violates the protocol
+as specified by `Spec.mustReject` — wrong sequence number; window overrun; acknowledgement of a
+sequence number that is not among the `outstanding` most recently sent ones (`Spec.awaitingAck`,
+written from the meaning, equivalent to the code's wrap-around test by `mem_awaitingAck`);
+inconsistent flags (`Spec.badFlags`: management opcode, no flag at all, stand-alone acknowledgement
+with data, beginning+continue, short non-final segment, one-segment message not final) or length
+(`Spec.badLength`) — or the receive buffer has no room for it (`Spec.noRoom`, a resource limit, not
+a protocol violation; never the case between two well-behaved ends, `never_refused`). Otherwise the
+segment is accepted: there is no other outcome (second conjunct), in particular no other error
+kind and no panic.  Handshake segments (`h.hs = true`) are not covered by this statement
+(`process_rx_total` covers them: accepted with the invariant or a clean error). -/
+theorem segment_refused_iff (s : Session) (hs : SInv s) (h : Hdr) (hh : h.Wf) (hhs : h.hs = false)
+    (p : List Nat) (now : Nat) :
+    (s.processRxData h p now = .error .invalidData ↔
+      (Spec.mustReject (viewOf s) h p = true ∨ Spec.noRoom (ringFree s.recv.buf) h p = true)) ∧
+    ((∃ s', s.processRxData h p now = .ok s') ↔
+      (Spec.mustReject (viewOf s) h p = false ∧ Spec.noRoom (ringFree s.recv.buf) h p = false)) :=
+  segment_refused_iff_aux s hs h hh hhs p now
+
+/-- the acknowledgement clause of `Spec.mustReject` (membership in the list of sequence numbers
+awaiting an acknowledgement) is the code's test `(last_sent − ack) mod 256 < outstanding` -/
+theorem ack_clause_is_code_test (s : Session) (hs : SInv s) (a : Nat) (ha : a < 256) :
+    a ∈ Spec.awaitingAck (viewOf s) ↔ wrapSub s.send.lastSent a < s.windowSize - s.send.level :=
+  mem_awaitingAck (viewOf s) a hs.lastLt ha
+    (by show s.windowSize - s.send.level ≤ 256; have := hs.wsLe; omega)
+
+/-- Non-vacuity: on an established session (window 5, segment size 20, nothing sent yet) a
+stand-alone acknowledgement of the never-sent sequence number 77 is a violation, and so are a data
+segment with sequence number 5 when 0 is expected, a segment with beginning+continue, a
+non-final segment that does not fill the segment size, and a management opcode; a well-formed
+one-segment message is not, and is accepted. -/
 example : ∃ s, (Session.fresh false false).processRx none [0x65, 0x6c, 4, 0, 0, 0, 23, 0, 5] 0 = .ok s ∧
     Spec.mustReject (viewOf s) { ack := true, ackNum := 77, seqNum := 0 } [] = true ∧
-    Spec.mustReject (viewOf s) { beg := true, fin := true, msgLen := 1, seqNum := 5 } [7] = true := by
-  exact ⟨_, rfl, by decide, by decide⟩
+    Spec.mustReject (viewOf s) { beg := true, fin := true, msgLen := 1, seqNum := 5 } [7] = true ∧
+    Spec.mustReject (viewOf s) { beg := true, cont := true, fin := true, msgLen := 1, seqNum := 0 } [7] = true ∧
+    Spec.mustReject (viewOf s) { beg := true, msgLen := 40, seqNum := 0 } [7] = true ∧
+    Spec.mustReject (viewOf s) { mgmt := true, opcode := 1, beg := true, fin := true, msgLen := 1, seqNum := 0 } [7] = true ∧
+    Spec.mustReject (viewOf s) { beg := true, fin := true, msgLen := 1, seqNum := 0 } [7] = false ∧
+    Spec.noRoom (ringFree s.recv.buf) { beg := true, fin := true, msgLen := 1, seqNum := 0 } [7] = false ∧
+    (∃ s', s.processRxData { beg := true, fin := true, msgLen := 1, seqNum := 0 } [7] 3 = .ok s') := by
+  exact ⟨_, rfl, by decide, by decide, by decide, by decide, by decide, by decide, by decide, _, rfl⟩
 
 /-! ## Window slots and the acknowledgement deadline (session level) -/
 
@@ -208,6 +245,93 @@ theorem link_delivered_is_reassembly (ra rb : Bool) (ga gb : Option Nat) (ops : 
     (hk : ((runLink (freshLink ra rb ga gb) ops).get x).fetched[k]? = some (b, c)) :
     ∃ full, ((runLink (freshLink ra rb ga gb) ops).get x).rs.done[k]? = some full ∧ b = full.take c :=
   ((link_inv ops _ (linv_fresh ra rb ga gb) hw).get x).1.dlv k b c hk
+
+/-! ## The acknowledgement deadline, over whole runs -/
+
+theorem ackRun_link (y : Side) (ops : List Op) : ∀ m : AckMon, (ackRun y m ops).l = runLink m.l ops := by
+  induction ops with
+  | nil => intro m; rfl
+  | cons op ops ih =>
+    intro m
+    simp only [ackRun, runLink]
+    rw [ih]
+    unfold AckMon.step
+    cases m.l.step op with
+    | ok r => rfl
+    | error e => rfl
+
+/-- **`ack_within_deadline`** (run level; every state of the link, every schedule).  Observe end `y`
+along ANY schedule `ops` from ANY state `l0` of the link (time advances by `tick` only), with two
+ghost clocks (`Btp.AckMon`): `polledAt` = when `y`'s pump (`process_outgoing`) last ran, `since` =
+since when an acknowledgement has been *sendable* at `y` without interruption
+(`Session.ackable`: `pending_ack().is_some()` - something accepted and not acknowledged, and no
+complete message waiting to be fetched -, a free slot in the send window, no handshake response
+pending).  Then in the state reached, if an acknowledgement is sendable and `y` has been polled
+during the last `p` seconds, the clock is at most `max (received_at + 15 s, since) + p`: **an
+acknowledgement that can be sent never stays unsent for more than the poll period `p` after its
+15 s timer has fired** (`received_at` = the instant the LAST segment was accepted: every accepted
+segment restarts the timer, as in the code; an acknowledgement emitted earlier - stand-alone or
+piggy-backed on data, `poll_ackable` - makes `ackable` false, so "already acknowledged" is covered).
+If `y` is polled at least every `p` seconds throughout, this holds in every state of the run.
+
+The three cases in which NO acknowledgement is due, all from the code, are exactly the negation of
+`ackable`: (1) a complete message waits to be fetched (`buf_messages_ct > 0`: the acknowledgement
+is withheld as back-pressure until the application takes the message - with an application that
+never fetches, the acknowledgement is never sent and the peer's idle timeout closes the session);
+(2) the send window is exhausted (`level = 0`: the stand-alone acknowledgement needs a sequence
+number of its own; it waits for the peer's acknowledgement - between two rs-matter ends this cannot
+persist: `never_dead`, `C18_live_holds`); (3) the responder has not sent its handshake response
+yet (it goes out first, on the same poll sequence). `since` records when the last of them ended. -/
+theorem ack_within_deadline (l0 : LMon) (y : Side) (ops : List Op) (p : Nat) :
+    let m := ackRun y (AckMon.init l0 y) ops
+    m.l = runLink l0 ops ∧
+    (((runLink l0 ops).get y).e.s.ackable = true → (runLink l0 ops).now ≤ m.polledAt + p →
+      ∃ u, m.since = some u ∧ u ≤ (runLink l0 ops).now ∧
+        ∀ t, ((runLink l0 ops).get y).e.s.recv.receivedAt = some t →
+          (runLink l0 ops).now ≤ max (t + ackTimeoutSecs) u + p) := by
+  intro m
+  have hl : m.l = runLink l0 ops := ackRun_link y ops _
+  refine ⟨hl, ?_⟩
+  rw [← hl]
+  intro ha hp
+  have hi : AckInv y m := ackInv_run ops (ackInv_init l0 y)
+  obtain ⟨u, hu, hle, hall⟩ := hi.ok ha
+  refine ⟨u, hu, hle, fun t ht => ?_⟩
+  rcases hall t ht with h | h
+  · have : t + ackTimeoutSecs ≤ max (t + ackTimeoutSecs) u := Nat.le_max_left _ _
+    omega
+  · have : u ≤ max (t + ackTimeoutSecs) u := Nat.le_max_right _ _
+    omega
+
+/-- the pump step behind it (one step, every end state): polled in an `ackable` state, the end
+either emits a segment that carries the acknowledgement number `ack_seq` (and then counts
+everything as acknowledged), or emits nothing, is unchanged, and `is_ack_due` is false -/
+theorem poll_emits_ack {e : End} (ha : e.s.ackable = true) {now : Nat} {e' : End} {seg : List Nat}
+    (hok : e.processOutgoing now = .ok (e', seg)) :
+    (seg = [] ∧ e' = e ∧ e.s.isAckDue now ackTimeoutSecs = false) ∨
+    (seg ≠ [] ∧ e'.s.recv.ackLevel = 0 ∧
+      ∃ (h : Hdr) (p : List Nat), seg = h.encode ++ p ∧ h.getAck = some e.s.recv.ackSeq) :=
+  poll_ackable ha hok
+
+def ackSampleOps : List Op :=
+  [.poll .a, .deliver .b, .poll .b, .deliver .a, .send .a [1, 2, 3], .poll .a, .deliver .b, .fetch .b 100,
+   .tick 4, .poll .b, .tick 4, .poll .b, .tick 4, .poll .b]
+
+/-- Non-vacuity / a sample run (`ackSampleOps`): after the handshake `a` sends a one-segment message at time 0, `b`
+accepts it and the application fetches it: an acknowledgement is sendable at `b` since time 0,
+stamped 0.  `b` is polled every 4 s: at time 12 nothing has been sent yet (the timer has not
+fired), the hypotheses of `ack_within_deadline` hold with `p = 4` and the bound `15 + 4` is
+respected; the poll at time 16 emits the stand-alone acknowledgement (`b`'s sequence number 1,
+acknowledging 0). -/
+example :
+    ((runLink (freshLink false false none none) ackSampleOps).get .b).e.s.ackable = true ∧
+    (ackRun .b (AckMon.init (freshLink false false none none) .b) ackSampleOps).polledAt = 12 ∧
+    (ackRun .b (AckMon.init (freshLink false false none none) .b) ackSampleOps).since = some 0 ∧
+    (runLink (freshLink false false none none) ackSampleOps).now = 12 ∧
+    ((runLink (freshLink false false none none) ackSampleOps).get .b).e.s.recv.receivedAt = some 0 ∧
+    (runLink (freshLink false false none none) ackSampleOps).qba = [] ∧
+    (runLink (freshLink false false none none) (ackSampleOps ++ [.tick 4, .poll .b])).qba = [[0x08, 0, 1]] := by
+  decide
 
 /-! ## Intact, exactly once, in order -/
 
@@ -409,6 +533,143 @@ segment travels, `b` fetches exactly what was submitted. -/
 example : ((runLink (freshLink false true (some 100) (some 64))
     ([.send .a [9, 8, 7]] ++ handshakeOps ++ [.poll .a, .deliver .b, .fetch .b 2048])).b.fetched) =
     [([9, 8, 7], 2048)] := by decide
+
+/-! ## Windows outside the range two rs-matter ends negotiate
+
+All from-fresh theorems of this file (`never_refused`, `in_order_once_fresh`, `window_respected`,
+`never_dead`, `never_stuck`, `C18_live_holds`) speak about the link of two rs-matter ends, which
+negotiate a window in `[6, 79]` (`negWin_ge`; `POk.wm`: `W * mtu ≤ 1583`).  For other windows
+(a peer that is not rs-matter) only the per-end theorems (`process_rx_total`, `end_inv`,
+`delivered_is_reassembly`, `segment_refused_iff`: every window 1..255) and the theorems that
+start from an ASSUMED `Sync` / `Steady` state (`sync_step`, `in_order_once`) apply.  The examples
+below show that those assumptions are satisfiable for small windows and for window 255. -/
+
+/-- The link reached from two fresh ends when the handshake request is rewritten in flight to
+announce the window `w`: the initiator is a peer that is not rs-matter and asks for a small window
+(two rs-matter ends always negotiate a window in `[6, 79]`, `negWin_ge`; the harness does the same
+rewriting with its `hsw` operation). -/
+def smallWindowLink (w : Nat) : LMon :=
+  runLink ((runLink (freshLink false false none none) [.poll .a]).setInq .b
+    [[0x65, 0x6c, 4, 0, 0, 0, 23, 0, w]]) [.deliver .b, .poll .b, .deliver .a]
+
+/-- it satisfies the representation invariant (it is a run of the model from two fresh ends with one
+segment replaced in the queue) -/
+theorem small_window_linv (w : Nat) (hw : w < 256) : LInv (smallWindowLink w) := by
+  refine link_inv _ _ ((link_inv _ _ (linv_fresh _ _ _ _) ?_).setInq .b ?_) ?_
+  · intro op h; simp at h; subst h; trivial
+  · intro seg h; simp at h; subst h
+    intro b hb; simp at hb; omega
+  · intro op h; simp at h
+    rcases h with rfl | rfl | rfl <;> trivial
+
+/-- a link on which nothing has been submitted or received yet and nothing travels is steady -/
+theorem steady_of_idle (l : LMon) (hqab : l.qab = []) (hqba : l.qba = [])
+    (ha : l.a.e.s.handshakePending = false ∧ l.a.e.sdu = [] ∧ l.a.e.off = 0 ∧ l.a.tx = {} ∧ l.a.submitted = [] ∧ l.a.rs = {})
+    (hb : l.b.e.s.handshakePending = false ∧ l.b.e.sdu = [] ∧ l.b.e.off = 0 ∧ l.b.tx = {} ∧ l.b.submitted = [] ∧ l.b.rs = {}) :
+    Steady l := by
+  obtain ⟨a1, a2, a3, a4, a5, a6⟩ := ha
+  obtain ⟨b1, b2, b3, b4, b5, b6⟩ := hb
+  intro x
+  cases x
+  · refine ⟨a1, ⟨?_, ?_, ?_, ?_, ?_⟩, ?_, ?_⟩
+    · simp [LMon.get, a2, a4, a5]
+    · simp [LMon.get, a2, a4]
+    · simp [LMon.get, a3, a4]
+    · intro h; exact absurd a2 h
+    · intro _; exact a3
+    · show NoHs l.qab
+      rw [hqab]; intro seg h; exact absurd h List.not_mem_nil
+    · show feedAll l.b.rs l.qab = l.a.tx
+      rw [hqab, b6, a4]; rfl
+  · refine ⟨b1, ⟨?_, ?_, ?_, ?_, ?_⟩, ?_, ?_⟩
+    · simp [LMon.get, b2, b4, b5]
+    · simp [LMon.get, b2, b4]
+    · simp [LMon.get, b3, b4]
+    · intro h; exact absurd b2 h
+    · intro _; exact b3
+    · show NoHs l.qba
+      rw [hqba]; intro seg h; exact absurd h List.not_mem_nil
+    · show feedAll l.a.rs l.qba = l.b.tx
+      rw [hqba, a6, b4]; rfl
+
+/-- **`Steady` is satisfiable with window 1** (hypotheses of `in_order_once`) ... -/
+theorem small_window_steady_1 : Steady (smallWindowLink 1) ∧
+    (smallWindowLink 1).a.e.s.windowSize = 1 ∧ (smallWindowLink 1).b.e.s.windowSize = 1 ∧
+    (smallWindowLink 1).a.e.s.established = true :=
+  ⟨steady_of_idle _ (by decide) (by decide) (by decide) (by decide), by decide, by decide, by decide⟩
+
+/-- ... and with window 2 -/
+theorem small_window_steady_2 : Steady (smallWindowLink 2) ∧
+    (smallWindowLink 2).a.e.s.windowSize = 2 ∧ (smallWindowLink 2).b.e.s.windowSize = 2 ∧
+    (smallWindowLink 2).a.e.s.established = true :=
+  ⟨steady_of_idle _ (by decide) (by decide) (by decide) (by decide), by decide, by decide, by decide⟩
+
+/-- **Window 1 stalls** (not a statement about two rs-matter ends, which never negotiate it): the
+responder's only slot is taken by the handshake response, which the initiator never acknowledges
+on its own (`setup`: `ack_level = 0`), and the initiator's only slot is reserved for a segment
+that carries an acknowledgement (`is_full`): neither end ever emits anything, whatever the clock.
+Safety (`in_order_once`) holds trivially; liveness is claimed for windows ≥ 3 only. -/
+example :
+    let l := runLink (smallWindowLink 1) [.send .a [1, 2, 3], .send .b [9], .poll .a, .poll .b, .tick 15, .poll .a, .poll .b,
+       .tick 1000, .poll .a, .poll .b]
+    l.qab = [] ∧ l.qba = [] ∧ l.a.e.sdu = [1, 2, 3] ∧ l.b.e.sdu = [9] := by decide
+
+/-- window 2: messages cross in both directions -/
+example :
+    let l := runLink (smallWindowLink 2) [.send .a [1, 2, 3], .send .b [9], .poll .a, .deliver .b, .fetch .b 100, .poll .b,
+      .deliver .a, .poll .a, .deliver .b, .poll .b, .deliver .a, .fetch .a 100]
+    l.b.fetched = [([1, 2, 3], 100)] ∧ l.a.fetched = [([9], 100)] := by decide
+
+
+/-- **The cross-end invariant `Sync` is satisfiable for a window below 6** (window 2, segment size
+20): `sync_step`, `never_dead`-style reasoning and `in_order_once` apply from this state. -/
+theorem small_window_sync_2 : Sync 2 20 (smallWindowLink 2) := by
+  have hp : POk 2 20 := ⟨by omega, by omega, by omega, by omega, by omega⟩
+  refine sync_mk .b small_window_steady_2.1 hp (by decide) (by decide) ?_ ?_ ?_
+  · have := d1_init hp (some 0)
+    have e1 : ((smallWindowLink 2).get .b).e.s.send = { windowSize := 2, level := 2 - 1, lastSent := 0, sentAt := some 0 } := by decide
+    have e2 : ((smallWindowLink 2).get Side.b.other).e.s.recv = { level := 2, ackSeq := 0 } := by decide
+    have e3 : ((smallWindowLink 2).get Side.b.other).rs = {} := by decide
+    have e4 : (smallWindowLink 2).inq Side.b.other = [] := by decide
+    have e5 : (smallWindowLink 2).inq Side.b = [] := by decide
+    rw [e1, e2, e3, e4, e5]; exact this
+  · have := d2_init hp false
+    have e1 : ((smallWindowLink 2).get Side.b.other).e.s.send = { windowSize := 2, level := 2 } := by decide
+    have e2 : ((smallWindowLink 2).get Side.b).e.s.recv = ((Session.fresh false false).setup 4 20 2).recv := by decide
+    have e3 : ((smallWindowLink 2).get Side.b).rs = {} := by decide
+    have e4 : (smallWindowLink 2).inq Side.b.other = [] := by decide
+    have e5 : (smallWindowLink 2).inq Side.b = [] := by decide
+    rw [e1, e2, e3, e4, e5]; exact this
+  · intro h
+    have : ((smallWindowLink 2).get Side.b).e.s.send.level = 1 := by decide
+    omega
+
+/-- `in_order_once` instantiated at a window outside `[6, 79]`: from the window-2 link, any schedule. -/
+example (ops : List Op) (hw : WfSched ops) (y : Side) (k : Nat) (b : List Nat) (c : Nat)
+    (hk : ((runLink (smallWindowLink 2) ops).get y).fetched[k]? = some (b, c)) :
+    ∃ full, ((runLink (smallWindowLink 2) ops).get y.other).submitted[k]? = some full ∧ b = full.take c :=
+  in_order_once _ (small_window_linv 2 (by omega)) small_window_steady_2.1 ops hw y k b c hk
+
+/-- A window above 79 can only arise at an rs-matter *initiator* whose peer answers with a larger
+window than was requested (`process_rx_handshake_resp` accepts every window 1..255; an rs-matter
+responder never chooses more than 79): the response is rewritten in flight to announce 255. -/
+def bigWindowLink : LMon :=
+  runLink ((runLink (freshLink false false none none) [.poll .a, .deliver .b, .poll .b]).setInq .a
+    [[0x65, 0x6c, 4, 20, 0, 255]]) [.deliver .a]
+
+/-- `LInv` and `Steady` (the hypotheses of `in_order_once`) are satisfiable with window 255 at the
+initiator (the responder keeps 79: the two ends disagree, no cross-end invariant `Sync` exists for
+this link; only the per-end theorems and `in_order_once` - under whose link semantics a refused
+segment is never skipped - apply). -/
+theorem big_window_steady : LInv bigWindowLink ∧ Steady bigWindowLink ∧
+    bigWindowLink.a.e.s.windowSize = 255 ∧ bigWindowLink.a.e.s.established = true := by
+  refine ⟨?_, steady_of_idle _ (by decide) (by decide) (by decide) (by decide), by decide, by decide⟩
+  refine link_inv _ _ ((link_inv _ _ (linv_fresh _ _ _ _) ?_).setInq .a ?_) ?_
+  · intro op h; simp at h
+    rcases h with rfl | rfl | rfl <;> trivial
+  · intro seg h; simp at h; subst h
+    intro b hb; simp at hb; omega
+  · intro op h; simp at h; subst h; trivial
 
 /-! ## No deadlock (towards delivery under a fair schedule) -/
 
@@ -638,6 +899,313 @@ theorem C18_live_partial (ra rb : Bool) (ga gb : Option Nat) (ops : List Op) (hw
     (∀ (y : Side) (k : Nat) (b : List Nat) (c : Nat), (l.get y).fetched[k]? = some (b, c) →
       ∃ full : List Nat, (l.get y.other).submitted[k]? = some full ∧ b = full.take c) :=
   ⟨never_refused ra rb ga gb ops hw, never_stuck ra rb ga gb ops hw, in_order_once_fresh ra rb ga gb ops hw⟩
+
+/-! ## The connection idle timeout (30 s)
+
+`btp.rs`: `Btp::wait_timeout` polls `Btp::timeout()` = `Session::is_timed_out(now, 30 s)`
+(`send_window.sent_at + 30 s < now`; `sent_at` = instant of our last transmission or of the last
+partial acknowledgement, `Instant::MAX` while nothing is outstanding) every 2 s; when it answers
+`true` the GATT glue ends the session.  Model: `End.timeout`, the operation `TOp.timeout x` of the
+timed link `TMon` (`Lemmas/BtpTimed.lean`): once it has fired the session is closed - the transport
+operations `Poll` / `Deliver` are no longer executed; the applications may still `Send` / `Fetch`.
+
+* Safety is unaffected: `in_order_once_timed`, `window_respected_timed`.
+* Liveness becomes "delivered, or the session is closed by the idle timeout": `C18_live_timed`.
+* When does it fire between two healthy ends?  `timeout_only_in_slack`: under a *timely* schedule
+  (`TimelyFrom`: the clock advances only when nothing travels, nothing waits to be fetched and both
+  pumps have run, and by at most 15 s at a time) it fires ONLY in the `Slack` state: the end counts
+  one segment as unacknowledged that the peer does not hold for acknowledgement - the handshake
+  response, which an rs-matter initiator acknowledges only together with a later segment of the
+  responder - while nothing travels.  In every other state the acknowledgement ping-pong (every
+  stand-alone acknowledgement is a segment that must itself be acknowledged 15 s later) keeps every
+  running idle timer below 30 s.  `idle_close_example`: the Slack case is real (an established link
+  on which the initiator's first message comes later than 15 s after the handshake is closed by the
+  responder 30 s after the handshake); replayed on the real code in `corpus/C18/idle-timeout.txt`. -/
+
+theorem runT_link (tops : List TOp) : ∀ t : TMon, (runT t tops).l = runLink t.l (executed t tops) := by
+  induction tops with
+  | nil => intro t; rfl
+  | cons o os ih =>
+    intro t
+    cases o with
+    | op o =>
+      simp only [runT, executed]
+      by_cases hc : (t.closed && o.isTransport) = true
+      · have hs : t.step (.op o) = t := by simp only [TMon.step, hc, if_true]
+        rw [hs, ih]; simp only [hc, if_true]
+      · simp only [hc, Bool.false_eq_true, if_false]
+        rw [ih, runLink_cons]
+        simp only [TMon.step, hc, Bool.false_eq_true, if_false]
+    | timeout x =>
+      simp only [runT, executed]
+      rw [ih]
+      simp only [TMon.step]
+      split <;> rfl
+
+theorem executed_sub (tops : List TOp) : ∀ t : TMon, ∀ o ∈ executed t tops, TOp.op o ∈ tops := by
+  induction tops with
+  | nil => intro t o h; cases h
+  | cons o' os ih =>
+    intro t o h
+    cases o' with
+    | op o2 =>
+      simp only [executed] at h
+      split at h
+      · exact List.mem_cons_of_mem _ (ih _ o h)
+      · rcases List.mem_cons.mp h with rfl | h
+        · exact List.mem_cons_self
+        · exact List.mem_cons_of_mem _ (ih _ o h)
+    | timeout x =>
+      simp only [executed] at h
+      exact List.mem_cons_of_mem _ (ih _ o h)
+
+def WfTSched (tops : List TOp) : Prop := ∀ o, TOp.op o ∈ tops → WfOp o
+
+theorem executed_wf {tops : List TOp} (hw : WfTSched tops) (t : TMon) : WfSched (executed t tops) :=
+  fun o h => hw o (executed_sub tops t o h)
+
+theorem runT_append (a : List TOp) : ∀ (t : TMon) (b : List TOp), runT t (a ++ b) = runT (runT t a) b := by
+  induction a with
+  | nil => intro t b; rfl
+  | cons o os ih => intro t b; simp only [List.cons_append, runT]; exact ih _ _
+
+theorem step1_tick0 (l : LMon) : l.step1 (.tick 0) = l := rfl
+
+/-- as long as the session is not closed, the timed run is the run of the projected schedule -/
+theorem runT_open (f : Nat → TOp) (t : TMon) :
+    ∀ n, (runT t ((List.range n).map f)).closed = false →
+      (runT t ((List.range n).map f)).l = runF t.l (fun i => (f i).proj) n := by
+  intro n
+  induction n with
+  | zero => intro _; rfl
+  | succ n ih =>
+    intro hc
+    rw [List.range_succ, List.map_append, runT_append] at hc ⊢
+    simp only [List.map_cons, List.map_nil, runT] at hc ⊢
+    -- closed is monotone: the state before was open too
+    have hprev : (runT t ((List.range n).map f)).closed = false := by
+      cases hcl : (runT t ((List.range n).map f)).closed with
+      | false => rfl
+      | true =>
+        exfalso
+        have : ((runT t ((List.range n).map f)).step (f n)).closed = true := by
+          cases f n with
+          | op o => simp only [TMon.step]; split <;> exact hcl
+          | timeout x => simp only [TMon.step]; split <;> first | rfl | exact hcl
+        rw [this] at hc; cases hc
+    have e := ih hprev
+    show ((runT t ((List.range n).map f)).step (f n)).l = (runF t.l (fun i => (f i).proj) n).step1 ((f n).proj)
+    rw [← e]
+    cases hf : f n with
+    | op o =>
+      simp only [TMon.step, hprev, Bool.false_and, Bool.false_eq_true, if_false, TOp.proj]
+    | timeout x =>
+      rw [hf] at hc
+      simp only [TMon.step] at hc ⊢
+      split
+      · rename_i h; simp only [h, if_true] at hc; cases hc
+      · rfl
+
+def freshT (ra rb : Bool) (ga gb : Option Nat) : TMon := { l := freshLink ra rb ga gb }
+
+/-- **Safety with the idle timeout present** (`C18_full` for the timed link): from two fresh ends,
+under every schedule of `Send | Poll | Deliver | Tick | Fetch` and timeout checks at both ends -
+after the timeout of one end has fired the session is closed: the transport operations
+(`Poll`, `Deliver`) are no longer executed, the applications may still `Send` / `Fetch` - what has
+been fetched at one end is a prefix of what was submitted at the other, byte-identical, and the
+windows are respected. ("Exactly once, in order - or the session fails cleanly": a closed session
+delivers nothing that was not submitted and nothing twice.) -/
+theorem in_order_once_timed (ra rb : Bool) (ga gb : Option Nat) (tops : List TOp) (hw : WfTSched tops)
+    (y : Side) (k : Nat) (b : List Nat) (c : Nat)
+    (hk : ((runT (freshT ra rb ga gb) tops).l.get y).fetched[k]? = some (b, c)) :
+    ∃ full, ((runT (freshT ra rb ga gb) tops).l.get y.other).submitted[k]? = some full ∧ b = full.take c := by
+  rw [runT_link] at hk ⊢
+  exact in_order_once_fresh ra rb ga gb _ (executed_wf hw _) y k b c hk
+
+theorem window_respected_timed (ra rb : Bool) (ga gb : Option Nat) (tops : List TOp) (hw : WfTSched tops)
+    (hest : (runT (freshT ra rb ga gb) tops).l.a.e.s.established = true) (x : Side) :
+    let l := (runT (freshT ra rb ga gb) tops).l
+    (l.inq x.other).length ≤ (l.get x.other).e.s.recv.level ∧
+    (l.inq x.other).length + (l.get x.other).e.s.recv.ackLevel ≤
+      (l.get x).e.s.windowSize - (l.get x).e.s.send.level ∧
+    (l.get x).e.s.windowSize - (l.get x).e.s.send.level ≤ (l.get x.other).e.s.windowSize := by
+  rw [runT_link] at hest ⊢
+  exact window_respected ra rb ga gb _ (executed_wf hw _) hest x
+
+/-- **Liveness with the idle timeout present**: from two fresh ends, after any timed schedule
+`tops`, for every message accepted by `send` at `x` and every continuation `f` whose projection
+(timeout checks erased) is fair in the sense of `C18_live`: the message is eventually fetched at the
+other end, **or the session is eventually closed by the idle timeout**.  (Without further
+assumptions on the schedule the second case is real: `idle_close_example`.) -/
+theorem C18_live_timed (ra rb : Bool) (ga gb : Option Nat) (tops : List TOp) (f : Nat → TOp)
+    (hw : WfTSched tops) (hwf : ∀ i, WfOp (f i).proj)
+    (hdel : ∀ y i, ∃ j ≥ i, (f j).proj = .deliver y)
+    (htp : ∀ y i, ∃ j ≥ i, (f j).proj = .tick 15 ∧ (f (j + 1)).proj = .poll y)
+    (hfet : ∀ y i, ∃ j ≥ i, (f j).proj = .fetch y 1232)
+    (x : Side) (k : Nat) (hk : k < ((runT (freshT ra rb ga gb) tops).l.get x).submitted.length) :
+    ∃ n, k < ((runT (freshT ra rb ga gb) (tops ++ (List.range n).map f)).l.get x.other).fetched.length ∨
+      (runT (freshT ra rb ga gb) (tops ++ (List.range n).map f)).closed = true := by
+  by_cases hc : ∃ n, (runT (freshT ra rb ga gb) (tops ++ (List.range n).map f)).closed = true
+  · obtain ⟨n, hn⟩ := hc
+    exact ⟨n, .inr hn⟩
+  · have hopen : ∀ n, (runT (runT (freshT ra rb ga gb) tops) ((List.range n).map f)).closed = false := by
+      intro n
+      cases h : (runT (runT (freshT ra rb ga gb) tops) ((List.range n).map f)).closed with
+      | false => rfl
+      | true => exact absurd ⟨n, by rw [runT_append]; exact h⟩ hc
+    have hlive := C18_live_holds ra rb ga gb (executed (freshT ra rb ga gb) tops) (fun i => (f i).proj)
+      (executed_wf hw _) hwf hdel htp hfet x k (by rw [runT_link] at hk; exact hk)
+    obtain ⟨n, hn⟩ := hlive
+    refine ⟨n, .inl ?_⟩
+    rw [runT_append, runT_open f _ n (hopen n), runT_link]
+    rw [runLink_append, runLink_range] at hn
+    exact hn
+
+
+/-- **`timed_run`**: along every timely schedule from a synchronised state satisfying the time-stamp
+invariant (window ≥ 2), the invariants are preserved. -/
+theorem timed_run {W M : Nat} (hw2 : 2 ≤ W) (ops : List Op) : ∀ (l : LMon), Timed W M l → WfSched ops →
+    TimelyFrom l ops → Timed W M (runLink l ops) := by
+  induction ops with
+  | nil => intro l h _ _; exact h
+  | cons op ops ih =>
+    intro l h hw ht
+    rw [runLink_cons]
+    exact ih _ (timed_step1 h hw2 (hw op List.mem_cons_self) ht.1)
+      (fun o ho => hw o (List.mem_cons_of_mem _ ho)) ht.2
+
+/-- **`timeout_only_in_slack`**: in every state reached by a timely schedule from such a state, the
+idle timeout of an end `x` (`Btp::timeout()`) can answer `true` only in the `Slack` state of the
+direction `x → peer` (see the section header).  In particular it never fires at an end all of whose
+unacknowledged segments are held by the peer for acknowledgement, however long the link is idle:
+the peer's 15 s acknowledgement timer fires first. -/
+theorem timeout_only_in_slack {W M : Nat} (hw2 : 2 ≤ W) (l0 : LMon) (h0 : Timed W M l0) (ops : List Op)
+    (hw : WfSched ops) (ht : TimelyFrom l0 ops) (x : Side)
+    (hto : ((runLink l0 ops).get x).e.timeout (runLink l0 ops).now = true) : Slack W (runLink l0 ops) x :=
+  timeout_slack (timed_run hw2 ops l0 h0 hw ht) x hto
+
+/-- **`close_only_in_slack`** (timed link, whole run): start from an open timed link whose state
+satisfies `Timed` (e.g. right after the handshake, `timed_after_handshake`) and run any schedule of
+operations and timeout checks whose executed link operations are timely.  If the session ends up
+closed, then at the moment the timeout fired (after the prefix `tops1`, at end `x`) the direction
+`x → peer` was in the `Slack` state. -/
+theorem close_only_in_slack {W M : Nat} (hw2 : 2 ≤ W) (tops : List TOp) : ∀ (t : TMon), t.closed = false →
+    Timed W M t.l → WfTSched tops → TimelyFrom t.l (executed t tops) → (runT t tops).closed = true →
+    ∃ tops1 x, tops1 <+: tops ∧ (runT t tops1).closed = false ∧ Slack W (runT t tops1).l x ∧
+      ((runT t tops1).l.get x).e.timeout (runT t tops1).l.now = true := by
+  induction tops with
+  | nil => intro t hc _ _ _ h; simp only [runT] at h; rw [hc] at h; cases h
+  | cons o os ih =>
+    intro t hc ht hw htl hcl
+    have hw' : WfTSched os := fun o' ho => hw o' (List.mem_cons_of_mem _ ho)
+    cases o with
+    | op o =>
+      have hstep : t.step (.op o) = { t with l := t.l.step1 o } := by
+        simp only [TMon.step, hc, Bool.false_and, Bool.false_eq_true, if_false]
+      simp only [executed, hc, Bool.false_and, Bool.false_eq_true, if_false] at htl
+      rw [hstep] at htl
+      have ht' : Timed W M (t.l.step1 o) := timed_step1 ht hw2 (hw o List.mem_cons_self) htl.1
+      simp only [runT] at hcl
+      rw [hstep] at hcl
+      obtain ⟨tops1, x, hp, h1, h2, h3⟩ := ih { t with l := t.l.step1 o } hc ht' hw' htl.2 hcl
+      refine ⟨.op o :: tops1, x, List.cons_prefix_cons.mpr ⟨rfl, hp⟩, ?_, ?_, ?_⟩ <;>
+        (simp only [runT]; rw [hstep]; assumption)
+    | timeout x =>
+      by_cases hf : (t.l.get x).e.timeout t.l.now = true
+      · exact ⟨[], x, List.nil_prefix, hc, timeout_slack ht x hf, hf⟩
+      · have hstep : t.step (.timeout x) = t := by simp only [TMon.step, hf, Bool.false_eq_true, if_false]
+        simp only [executed] at htl
+        rw [hstep] at htl
+        simp only [runT] at hcl
+        rw [hstep] at hcl
+        obtain ⟨tops1, x', hp, h1, h2, h3⟩ := ih t hc ht hw' htl hcl
+        refine ⟨.timeout x :: tops1, x', List.cons_prefix_cons.mpr ⟨rfl, hp⟩, ?_, ?_, ?_⟩ <;>
+          (simp only [runT]; rw [hstep]; assumption)
+
+/-- Non-vacuity of `Timed`: the state right after an (instantaneous) handshake between two fresh
+ends, window 79, segment size 20. -/
+theorem timed_after_handshake : Timed 79 20 (runLink (freshLink false false none none) handshakeOps) := by
+  have hwf : WfSched handshakeOps := by
+    intro op h; simp [handshakeOps] at h
+    rcases h with rfl | rfl | rfl | rfl <;> trivial
+  obtain ⟨hl, hp⟩ := phase_run false false none none handshakeOps hwf
+  have hest : (runLink (freshLink false false none none) handshakeOps).a.e.s.established = true := by decide
+  have hsync : Sync 79 20 (runLink (freshLink false false none none) handshakeOps) := by
+    cases hp with
+    | p0 _ sa => rw [sa] at hest; cases hest
+    | p1 _ sa => rw [sa] at hest; cases hest
+    | p2 _ sa => rw [sa] at hest; cases hest
+    | p3 _ h => rw [h.sa] at hest; cases hest
+    | sync h => exact h
+  refine ⟨hl, hsync, fun x => ?_⟩
+  cases x
+  · refine ⟨by decide, ?_, ?_, ?_, ?_⟩
+    · intro r hr
+      have : ((runLink (freshLink false false none none) handshakeOps).get .a).e.s.recv.receivedAt = none := by decide
+      rw [this] at hr; cases hr
+    · intro hne; exact absurd (by decide) hne
+    · intro hal; exact absurd hal (by decide)
+    · intro s hs
+      have : ((runLink (freshLink false false none none) handshakeOps).get .a).e.s.send.sentAt = none := by decide
+      rw [this] at hs; cases hs
+  · refine ⟨by decide, ?_, ?_, ?_, ?_⟩
+    · intro r hr
+      have : ((runLink (freshLink false false none none) handshakeOps).get .b).e.s.recv.receivedAt = none := by decide
+      rw [this] at hr; cases hr
+    · intro hne; exact absurd (by decide) hne
+    · intro hal; exact absurd hal (by decide)
+    · intro s hs
+      have : ((runLink (freshLink false false none none) handshakeOps).get .b).e.s.send.sentAt = some 0 := by decide
+      rw [this] at hs
+      left
+      have := Option.some.inj hs
+      have hn : (runLink (freshLink false false none none) handshakeOps).now = 0 := by decide
+      rw [hn]; omega
+
+/-- a timely schedule after the handshake: one message `a → b`, then three rounds of the
+acknowledgement ping-pong, the clock advancing by 15 s only when everything has settled -/
+def pingPongOps : List Op :=
+  [.send .a [1, 2, 3], .poll .a, .deliver .b, .fetch .b 100, .poll .b, .poll .a,
+   .tick 15, .poll .b, .deliver .a, .poll .a, .poll .b,
+   .tick 15, .poll .a, .deliver .b, .poll .b, .poll .a,
+   .tick 15, .poll .b, .deliver .a, .poll .a, .poll .b,
+   .tick 14, .poll .a, .poll .b]
+
+/-- Non-vacuity of `TimelyFrom` / `timeout_only_in_slack`: `pingPongOps` is timely; the clock reaches
+59 s, three stand-alone acknowledgements have crossed, `b`'s idle timer (last restarted at 45 s) runs,
+and neither timeout fires. -/
+example :
+    TimelyFrom (runLink (freshLink false false none none) handshakeOps) pingPongOps ∧
+    (runLink (freshLink false false none none) (handshakeOps ++ pingPongOps)).now = 59 ∧
+    (runLink (freshLink false false none none) (handshakeOps ++ pingPongOps)).b.fetched = [([1, 2, 3], 100)] ∧
+    (runLink (freshLink false false none none) (handshakeOps ++ pingPongOps)).b.e.s.send.sentAt = some 45 ∧
+    (runLink (freshLink false false none none) (handshakeOps ++ pingPongOps)).a.e.timeout 59 = false ∧
+    (runLink (freshLink false false none none) (handshakeOps ++ pingPongOps)).b.e.timeout 59 = false :=
+  ⟨timely_of_B _ _ (by decide), by decide, by decide, by decide, by decide, by decide⟩
+
+def idleOps1 : List Op :=
+  [.tick 15, .tick 5, .send .a [1, 2, 3], .poll .a, .deliver .b, .fetch .b 100, .poll .b, .poll .a, .tick 11]
+
+def idleOps2 : List Op :=
+  [.send .a [4, 5], .poll .a, .deliver .b, .tick 15, .poll .b, .deliver .a, .fetch .b 100]
+
+/-- handshake (4 operations), `idleOps1` (9), the timeout tasks of both ends (`b`'s fires), `idleOps2` -/
+def idleCloseTops : List TOp :=
+  (handshakeOps ++ idleOps1).map TOp.op ++ [.timeout .a, .timeout .b] ++ idleOps2.map TOp.op
+
+/-- **`idle_close_example`** (the `Slack` case is real): after the handshake nothing happens for
+20 s; then `a` submits a message, it is delivered and fetched at `b` (time 20: `b`'s
+acknowledgement is due at 35); at time 31 `b`'s idle timeout fires - its handshake response (sent at
+time 0) is still unacknowledged, because an rs-matter initiator acknowledges it only together with a
+later segment of the responder - and the session is closed although both ends are alive; a second
+message submitted at `a` is accepted by `send` and never delivered.  The schedule is timely. -/
+theorem idle_close_example :
+    (runT (freshT false false none none) idleCloseTops).closed = true ∧
+    (runT (freshT false false none none) idleCloseTops).l.b.fetched = [([1, 2, 3], 100)] ∧
+    (runT (freshT false false none none) idleCloseTops).l.a.submitted = [[1, 2, 3], [4, 5]] ∧
+    (runT (freshT false false none none) (idleCloseTops.take 14)).closed = false ∧
+    TimelyFrom (runLink (freshLink false false none none) handshakeOps) idleOps1 :=
+  ⟨by decide, by decide, by decide, by decide, timely_of_B _ _ (by decide)⟩
 
 /-! ## The ring buffer: the real (checked) index arithmetic never panics and refines the byte queue of the session model -/
 
